@@ -37,12 +37,32 @@ CHECKS = {
                           '+ gate-driven SIGKILL of the real process tree at every commit/rename point, post-kill state matched '
                           'against a specification state',
                 design='DESIGN.md section 4 C10'),
+    'C08': dict(engine='RedoJobs', design='DESIGN.md section 4 C08',
+                technique='TLA+ model checking (TLC) of the token protocol RedoJobs (Conservation, MaxWork, ExitBalanced, '
+                          'QuiescentExact) + trace validation: token events of real parallel builds checked by TLC against '
+                          'TraceJobs, pipes counted by the harness acting as parent jobserver',
+                level='TLC checks the token invariants on every interleaving of small process trees (own and inherited '
+                      'jobserver, an outside world taking tokens, cheating, failing jobs, lock waits). The hooked redo then '
+                      'runs real parallel builds (-j1..8, harness-owned jobserver, log capture on/off, failures); every token '
+                      'event carries the implementation\'s counters, TLC replays the trace through the same token operators, '
+                      'rejects any step the protocol does not allow and evaluates conservation after every event.',
+                note='trusted: TLC, hook placement (giving events before, taking events after the system call), O_APPEND line '
+                     'atomicity; model bounded to small trees, real runs to random DAGs of 4-40 targets'),
+    'C09': dict(engine='RedoJobs', design='DESIGN.md section 4 C09',
+                technique='TLA+ model checking (TLC) of the scheduler at poll-cycle granularity (NoPanic, NotHung, '
+                          'AllSucceedExit0 over every ready set per select()) + real builds with gate-delayed select() wake-ups, '
+                          'duplicate targets and contending invocations, traces validated against TraceJobs',
+                level='TLC explores every interleaving and every coincidence of child exits, token arrivals and timer expiries '
+                      'per poll cycle on small process trees, with every assert!() of the code as a guard; real builds are then '
+                      'driven into the same corners (select() wake-ups delayed through a gate so that events coincide, two '
+                      'invocations on the same targets, duplicate targets) and any panic, hang (wall-clock bound with '
+                      'process/lock snapshot) or wrong exit status is a violation; their token traces are validated by TLC.',
+                note='trusted: TLC, the reading of run()/block_on in RedoJobs (bound by the trace validation of the token '
+                     'layer; the control-flow layer is bound only through exit status / termination of the real runs)'),
 }
 
 PENDING = {
     'C06': 'check under construction (multi-invocation lock model + trace validation); not claimed yet',
-    'C08': 'check under construction (RedoJobs token model + trace validation); not claimed yet',
-    'C09': 'check under construction (RedoJobs scheduler model); not claimed yet',
     'C13': 'check under construction (RedoPaths transcription); not claimed yet',
     'C15': 'check under construction (RedoPaths transcription, aliasing); not claimed yet',
     'C16': 'check under construction (RedoDb); not claimed yet',
@@ -64,7 +84,12 @@ def main():
             'add_only': True,
         },
         'engines': [
-            {'name': 'RedoSys', 'path': 'spec/RedoSys.tla', 'serves_properties': sorted(CHECKS),
+            {'name': 'RedoJobs', 'path': 'spec/RedoJobs.tla',
+             'serves_properties': sorted(k for k, c in CHECKS.items() if c.get('engine') == 'RedoJobs'),
+             'kind_free_text': 'TLA+ specification of the jobserver token protocol and the scheduler loop at poll-cycle '
+                               'granularity; TLC; TraceJobs.tla validates recorded token events of the real binaries'},
+            {'name': 'RedoSys', 'path': 'spec/RedoSys.tla',
+             'serves_properties': sorted(k for k, c in CHECKS.items() if c.get('engine', 'RedoSys') == 'RedoSys'),
              'kind_free_text': 'TLA+ specification of the whole build system (fs, db, locks, process tree); TLC; '
                                'behaviours exported as JSON and replayed by lib/harness.py'},
         ],
